@@ -29,6 +29,7 @@ def run(ctx, rep):
         slotfsm.s8(prog, rep, "C01", sites, tag)
         view_bounds(prog, rep, tag)
         slotfsm.s5_escape(prog, rep, "C01", tag)
+        slotfsm.s5_handle_escape(prog, rep, "C01", tag)
         slotfsm.s5(prog, rep, "C01", tag, fns={"<ReceivedFrame as Drop>::drop"})
 
 
